@@ -646,6 +646,39 @@ func faults(args []string) int {
 			}
 		}
 	}
+	// Select-bit region of every returned output label (both modes): a label
+	// is 16 bytes, its point-and-permute bit is the top bit of byte 0 and the
+	// two labels of a wire differ by the session offset R, which always has
+	// that bit set.  The cheapest blind forgery of a result bit is therefore a
+	// flip of exactly that bit (it succeeds iff R has no other bit set, i.e.
+	// iff the offset is not random); every label of every baseline session
+	// gets it, plus flips at the other three corners of the label (all 128
+	// bits in the thorough tier).
+	for _, b := range bases {
+		outBits := 0
+		if b.s != nil {
+			outBits = b.s.c.Outputs.Size()
+		} else {
+			outBits = b.ss.outBits
+		}
+		for j := 0; j < outBits; j++ {
+			pos0 := b.ba - 16*outBits + 16*j
+			if pos0 < 0 {
+				continue
+			}
+			if cf.Tier == "thorough" {
+				for k := 0; k < 128; k++ {
+					cases = append(cases, faultCase{b.ci, 1, pos0 + k/8, "bit", k % 8})
+					o.Count("select_bit_region_cases")
+				}
+				continue
+			}
+			for _, c := range [][2]int{{0, 7}, {0, 0}, {15, 0}, {15, 7}} {
+				cases = append(cases, faultCase{b.ci, 1, pos0 + c[0], "bit", c[1]})
+				o.Count("select_bit_region_cases")
+			}
+		}
+	}
 	// one child process per case, 32 at a time
 	results := map[string]string{}
 	self, _ := os.Executable()
